@@ -156,6 +156,7 @@ static std::optional<Failure> check_build(Run &R, const Bytes &a, int mask) {
     Facts f = facts(K.T, C, a, g_us);
     Outs o = K.run(a, mask);
     R.eval(16);
+    for (int m = 0; m < 4; m++) { std::string w = veteran_differs(o, m); R.eval(); if (!w.empty()) return Failure{"diagnostic-after-history", g_case, "address '" + show(a) + "': " + w + " (code and message must describe this call under the confirmed mode)"}; }
     for (int m = 0; m < 4; m++) for (int t = 0; t < 2; t++) {
         const v_outcome &x = o.obj[m][t];
         std::string where = std::string("mode ") + ref::MODE_NAME[m] + " tld_check=" + std::to_string(t) + " address '" + show(a) + "': " + outcome_str(x);
